@@ -653,7 +653,7 @@ func (h *HeapState) get(key string) string {
 	switch {
 	case h.over != nil && h.over[key] != "":
 		v = h.over[key]
-	case h.hv != nil && h.hv.Maps[key]:
+	case h.hv != nil && (h.hv.Maps[key] || (h.hv.Std && !h.g.P.IsModuleKey(key) && key != "$alloc" && !strings.HasPrefix(key, "L|"))):
 		v = h.g.declConst(sanitize(key)+"@"+h.epoch, h.g.heapMapSort(key))
 	case h.preds != nil:
 		var vals []string
